@@ -125,20 +125,38 @@ theorem C13_radial_call {α : Type} (T : TF α) (k : RadialKernel α) (row col :
 
 /-- As coded: with no direction the concentration is 0 whatever was configured, and for
     `kappa <= 1e-6` the angle is `2 pi U`; otherwise the angle is `mu + arccos f` or `mu - arccos f`
-    (up to whole turns) for the same accepted `f`, the sign decided by comparing one further uniform
-    value with 1/2 - symmetric about the configured direction `mu = degrees * pi / 180`.
+    (up to whole turns) for the `f` ACCEPTED BY THE REJECTION LOOP on these very draws, the sign decided by
+    comparing the next uniform value `u3` with 1/2 - symmetric about the configured direction `mu = degrees * pi / 180`.
     (That `f` has the von Mises law is the trusted part.) -/
 theorem C13_vonmises (mu kappa : ℝ) :
     (∀ u rest, vonMises TF.real mu (directionKappa TF.real .none kappa) (u :: rest) = some (2 * π * u, rest)) ∧
     (∀ u rest, kappa ≤ 1 / 1000000 → vonMises TF.real mu kappa (u :: rest) = some (2 * π * u, rest)) ∧
-    (∀ us theta rest, 1 / 1000000 < kappa → vonMises TF.real mu kappa us = some (theta, rest) →
-        ∃ (f u3 : ℝ) (k : ℤ), (1 / 2 < u3 ∧ theta = mu + arccos f - 2 * π * k) ∨
-                               (u3 ≤ 1 / 2 ∧ theta = mu - arccos f - 2 * π * k)) ∧
+    (∀ us f u3 rest, 1 / 1000000 < kappa →
+        vonMisesLoop TF.real kappa (vonMisesR TF.real kappa) us = some (f, u3 :: rest) →
+        ∃ (theta : ℝ) (k : ℤ), vonMises TF.real mu kappa us = some (theta, rest) ∧
+          theta = (if 1 / 2 < u3 then mu + arccos f else mu - arccos f) - 2 * π * k) ∧
     (∀ d : Direction, d ≠ .none → directionKappa TF.real d kappa = kappa ∧
         directionMu TF.real d = (d.degrees.toNat : ℝ) * π / 180) :=
   ⟨fun u rest => vonMises_none_real mu kappa u rest,
    fun u rest h => vonMises_small_real mu kappa u rest h,
-   fun us theta rest h hv => vonMises_mirror_real mu kappa theta us rest h hv,
+   fun us f u3 rest h hloop => by
+     have hk : TF.real.leb kappa (vonMisesEps TF.real) = false := by
+       rw [vonMisesEps_real]; simp only [TF.real, decide_eq_false_iff_not, not_le]; exact h
+     have hm := vonMises_mirror TF.real mu kappa f u3 us rest hk hloop
+     have e2 : TF.real.mul (TF.real.ofNat 2) TF.real.pi = 2 * π := by simp [TF.real]
+     have eh : TF.real.div (TF.real.ofNat 1) (TF.real.ofNat 2) = 1 / 2 := by simp [TF.real]
+     rw [e2, eh] at hm
+     by_cases hu : 1 / 2 < u3
+     · have hl : TF.real.ltb (1 / 2) u3 = true := by
+         simp only [TF.real, decide_eq_true_eq]; exact hu
+       rw [hl] at hm
+       obtain ⟨k, hk'⟩ := fmod_real_turns (TF.real.add mu (TF.real.acos f))
+       exact ⟨_, k, hm, by rw [if_pos hu]; simp only [if_true]; rw [hk']; simp [TF.real]⟩
+     · have hl : TF.real.ltb (1 / 2) u3 = false := by
+         simp only [TF.real, decide_eq_false_iff_not]; exact hu
+       rw [hl] at hm
+       obtain ⟨k, hk'⟩ := fmod_real_turns (TF.real.sub mu (TF.real.acos f))
+       exact ⟨_, k, hm, by rw [if_neg hu]; simp only [Bool.false_eq_true, if_false]; rw [hk']; simp [TF.real]⟩,
    fun d hd => ⟨directionKappa_some TF.real d hd kappa, directionMu_real d⟩⟩
 
 /-- The mirror pair, generically in the number type (also what the driver's `Float` twin runs). -/
